@@ -88,6 +88,7 @@ func (f *Flame) createContext(w http.ResponseWriter, r *http.Request, params rou
 	hs := make([]Handler, 0, len(f.handlers)+len(handlers))
 	hs = append(hs, f.handlers...)
 	hs = append(hs, handlers...)
+	simYield(3)
 
 	c := newContext(w, r, params, hs, urlPath)
 	c.SetParent(f)
